@@ -66,7 +66,9 @@ CLAIMED = {
          "and `Err(e) => return` arms of the emitted program (DESIGN §1.3). Same assumptions as C05."),
    design="§3/C06"),
  "C08": dict(
-   text=("Partial claim — a thin slice: three of the documented rules, on the three functions that check them (the third — 'a singleton that depends "
+   text=("Partial claim — a thin slice: four of the documented rules, on the four functions that check them (the fourth — 'any &mut input on "
+         "a constructor', CannotTakeMutReferenceError::check_callable: a callable with a mutable-reference input is refused, naming the FIRST "
+         "such input, for any number of inputs — and the third — 'a singleton that depends "
          "on a request-scoped type', ConstructibleDb::verify_lifecycle_of_singleton_dependencies — lives in the C04 unit, obligations tagged @C08, "
          "and is stated over the functional spec `designated(..)` of the scope walk proved there). Verus discharges, on the real "
          "text of pavexc's cloneables_can_be_cloned ('clone-if-necessary on a type that is not Clone'; also: every configuration type must "
